@@ -29,7 +29,7 @@ contract(
         "result is None or (result.start == max(self.start, other.start) and result.end == min(self.end, other.end))",
         "self.start == old(self.start) and self.end == old(self.end) and other.start == old(other.start) and other.end == old(other.end)",
     ],
-    modifies=["alloc"],
+    modifies=["alloc"], writes_fresh=["timeslot.timeslot.Timeslot.start", "timeslot.timeslot.Timeslot.end"],
     raises=[],
 )
 
@@ -44,7 +44,7 @@ contract(
         "result is None or other.end >= self.start or (result.start == other.end and result.end == self.start)",
         "self.start == old(self.start) and self.end == old(self.end) and other.start == old(other.start) and other.end == old(other.end)",
     ],
-    modifies=["alloc"],
+    modifies=["alloc"], writes_fresh=["timeslot.timeslot.Timeslot.start", "timeslot.timeslot.Timeslot.end"],
     raises=[],
 )
 
@@ -57,7 +57,7 @@ contract(
         "result.start == min(self.start, other.start) and result.end == max(self.end, other.end)",
         "self.start == old(self.start) and self.end == old(self.end) and other.start == old(other.start) and other.end == old(other.end)",
     ],
-    modifies=["alloc"],
+    modifies=["alloc"], writes_fresh=["timeslot.timeslot.Timeslot.start", "timeslot.timeslot.Timeslot.end"],
     raises=[],
 )
 
